@@ -32,7 +32,8 @@ def nontrivial(c):
 TECHNIQUE = ('Coq model of the run across processes (Run.run) with "every selected test exactly once per iteration, in one process, under '
              'its layer" as a boolean predicate (Obs.c03_ok); theorems in P_C03.v; correspondence check on generated worlds')
 LEVEL_TEXT = ('Which tests start in which process is compared with the model and with the selection recomputed in Coq, in sequential, '
-              'repeated, resumed and parallel mode.')
+              'repeated, resumed and parallel mode.'
+              ' Whole-run theorems (RunOnce.v): without -x every selected test whose layer stack can be set up starts exactly reps times over all processes, and nothing else starts.')
 LEVEL_NOTE = 'Selection by patterns and levels is covered by C08/C09; discovery by C14.'
 
 import modes          # noqa: E402
